@@ -30,7 +30,7 @@ def standard(ctx, mod, prefixes, rule):
     import importlib
     lib = V.build_repo(ctx, "O1")
     subs = [importlib.import_module(n) for n in getattr(mod, "SUBCHECKS", [])]   # modelled decoders checked as part of this property
-    proof_ok = V.coq_check_many(ctx, [mod.PROP_FILE] + [s.PROP_FILE for s in subs])
+    proof_ok = V.coq_check_many(ctx, [mod.PROP_FILE] + [f for s in subs for f in getattr(s, "PROP_FILES", [s.PROP_FILE])])
     ctx.say("proofs: %d/%d %s" % (ctx.proof["discharged"], ctx.proof["obligations"], "ok" if proof_ok else "BROKEN"))
     tot, dist, fails, samples, stats = run_dec_search(ctx, prefixes)
     corr = []
